@@ -71,7 +71,8 @@ def floors(tier):
     L = 5 if tier == "quick" else 7
     return {"words:checked": sum(6 ** k for k in range(0, L + 1)) - 1, "group:products": 576, "wrappers:compiles": 24 * 4 * 7,
             "nonclifford:rejected": 400, "group:entries": 24, "nonclifford:small_rotation": 100,
-            "wrappers:with_single_noise_object": 24 * 4 * 7, "wrappers:with_list_noise_object": 24 * 4 * 2}
+            "wrappers:with_single_noise_object": 24 * 4 * 7, "wrappers:with_list_noise_object": 24 * 4 * 2,
+            "wrappers:export_read_by_standard_reader": 24 * 2 * 7}
 
 
 def _lib():
@@ -305,6 +306,18 @@ def check_wrapper(word, reg, backend, prep_i, ctx, noise_mode=None):
         ctx.violation("wrapper_order_or_action", case,
                       {"max_abs_diff": float(np.max(np.abs(got - ref))), "word": word, "meaning": "matrix product, last listed first"},
                       key=f"wrapper_state:{backend}")
+    # ---- the exported wrapper (openqasm_lib.single_qubit_wrapper_info) read by a standard openQASM reader denotes the same unitary
+    if noise_mode is None and backend == "dm":
+        from ..ref.qasm import QasmProgram
+        try:
+            text = c.to_openqasm()
+            rho_q, _ = QasmProgram(text).run([])
+            ctx.count("wrappers:export_read_by_standard_reader")
+            if not np.allclose(rho_q, ref, atol=1e-8):
+                ctx.violation("exported_wrapper_denotes_another_unitary", case, {"max_abs_diff": float(np.max(np.abs(rho_q - ref))), "word": word,
+                                                                                 "text_tail": text.splitlines()[-14:]}, key="wrapper_export")
+        except Exception as e:
+            ctx.violation("exported_wrapper_not_readable", case, {"exception": repr(e)[:300]}, key="wrapper_export_exc")
 
 
 def run_wrappers(spec, ctx):
